@@ -23,12 +23,14 @@ ASSUMPTIONS = ['batch preprocessors are per-example (row-wise) functions',
                'batch_size >= 1, buffer_size >= 1',
                'the model abstracts a ClientDataset to (identity of its preprocessor object, its feature-name set, its rows)',
                'base iterables of RepeatableIterator produce the same finite item list whenever iter() is called on a builtin container']
-PARTIAL = ['shuffle_repeat_batch_federated_data / FederatedData.shuffled_clients are judged at property level only '
+PARTIAL = ['shuffle_repeat_batch_federated_data is an infinite stream: the theorem is about every finite prefix (C15_shuffle_repeat_prefix_exact), '
+           'its body is pinned structurally by the translator, the model is compared on the first batches with the oracle recomputed by composing '
+           'the real parts, and it is also judged at property level '
            '(prefix sub-multiset bounds, per-epoch permutation, reproducibility for seeds incl. 0 / 1 / 2^32-1 over the in-memory, '
-           'subset and SQLite implementations, the two passes being separate creations with numpy\'s global RNG perturbed in between); their finite core '
-           '(buffered_shuffle, buffered_shuffle_batch_client_datasets) is modelled and proved',
+           'subset and SQLite implementations, the two passes being separate creations with numpy\'s global RNG perturbed in between); its finite core '
+           '(buffered_shuffle, buffered_shuffle_batch_client_datasets) and the pass structure of shuffled_clients are modelled, translated and proved',
            '"non-trivial order" is a statistical statement checked on seeds, not a theorem']
-CASE_TIMEOUT = 20
+CASE_TIMEOUT = 90
 
 M = '__mask__'
 AFFS = [(1, 0), (2, 1), (3, 2)]
@@ -423,7 +425,23 @@ def run(case):
                                                            example_buffer_size=case['eB'], seed=seed)
           return [np.asarray(b['x']).tolist() for b in itertools.islice(gen, case['take'])]
         o1 = take(case['seed'], 1)
-        return {'batches': o1, 'same': o1 == take(case['seed'], 2), 'other': take((case['seed'] + 1) % (1 << 32), 3)}
+        same = o1 == take(case['seed'], 2)
+        other = take((case['seed'] + 1) % (1 << 32), 3)
+        # the oracle, recomputed independently by composing the parts as the docstring says: one
+        # RandomState(seed); its first draw seeds the client stream; then it drives the example shuffle
+        rec = RecRng(case['seed'])
+        s2 = int(rec.randint(1 << 32))
+        need = case['eB'] + case['take'] * case['bs']
+
+        def items():
+          for _, ds in fd.shuffled_clients(case['cB'], s2):
+            for v in np.asarray(ds.raw_examples['x']).tolist():
+              yield int(v)
+        prefix = list(itertools.islice(items(), need))
+        rec.draws.clear()
+        list(cd.buffered_shuffle(iter(prefix), case['eB'], rec))
+        return {'batches': o1, 'same': same, 'other': other, 'prefix': prefix,
+                'codes': rec.codes, 'draws': rec.draws, 'contract': rec.contract}
       nc = case['nc']
       data = {b'id%02d' % j + b'\x00' * (j % 2): _examples(100 * j, 1 + j % 3, 0, False) for j in range(nc)}
       fd, cleanup = _fd_impl(data, case.get('impl', 'mem'))
@@ -436,7 +454,15 @@ def run(case):
           out.append([ids.index(cid) if cid in ids else -1, int(np.asarray(ds.raw_examples['x'])[0]) // 100])
         return out
       o1 = take(case['seed'], 1)
-      return {'stream': o1, 'same': o1 == take(case['seed'], 2)}
+      same = o1 == take(case['seed'], 2)
+      # the oracle of every pass, recomputed independently: NumPy's answers for RandomState(seed)
+      # when one buffered_shuffle per pass is run over the clients
+      rec, oracles = RecRng(case['seed']), []
+      for _ in range(case['epochs']):
+        nco, ndr = len(rec.codes), len(rec.draws)
+        list(cd.buffered_shuffle(list(range(nc)), case['B'], rec))
+        oracles.append([rec.codes[nco] if len(rec.codes) > nco else [], [d[2] for d in rec.draws[ndr:]]])
+      return {'stream': o1, 'same': same, 'oracles': oracles, 'contract': rec.contract}
     finally:
       np.random.set_state(saved)
       cleanup()
@@ -579,6 +605,8 @@ def oracle(case, obs):
       out.append(('srb-lost', 'more items are missing from completed passes than the shuffle buffer can hold'))
     if not obs['same']:
       out.append(('srb-not-reproducible', 'same seed, different stream'))
+    if not obs.get('contract', True):
+      out.append(('numpy-contract', 'recorded shuffle / randint violated the assumed NumPy contract'))
     return out
   if kind == 'shufclients':
     nc = case['nc']
@@ -592,6 +620,8 @@ def oracle(case, obs):
       out.append(('clients-wrong-dataset', 'a client id came with another client\'s dataset'))
     if not obs['same']:
       out.append(('clients-not-reproducible', 'same seed, different client order'))
+    if not obs.get('contract', True):
+      out.append(('numpy-contract', 'recorded shuffle / randint violated the assumed NumPy contract'))
     return out
   return out
 
@@ -646,6 +676,15 @@ def encode(case, obs):
     bt = '[' + '; '.join(_zl(x) for x in obs['batches']) + ']'
     return (f'(CShufBatch {case["bs"]}%Z {case["B"]}%Z {a}%Z {b}%Z {args[0]} {args[1]} {_ds_term(case["ds"])}, '
             f'OShufBatch {fw.cbool(obs["err"] == "ValueError")} {bt})')
+  if kind == 'srbfd':
+    args = _oracle_args({'B': case['eB']}, obs)
+    if args is None:
+      return f'(CSrb {case["bs"]}%Z {case["eB"]}%Z [] []%Z []%Z 0%nat, {BAD_OBS})'
+    bt = '[' + '; '.join(_zl(x) for x in obs['batches']) + ']'
+    return (f'(CSrb {case["bs"]}%Z {case["eB"]}%Z {args[0]} {args[1]} {_zl(obs["prefix"])} {case["take"]}%nat, OSrb {bt})')
+  if kind == 'shufclients':
+    orc = '[' + '; '.join(f'({fw.natlist(c)}, {_zl(d)})' for c, d in obs['oracles']) + ']'
+    return (f'(CShufClients {case["B"]}%Z {orc} {case["nc"]}%nat, OShufClients {_zl([i for i, _ in obs["stream"]])})')
   if kind == 'repeat':
     tr = '[' + '; '.join('None' if v is None else f'Some {fw.zlit(v)}%Z' for v in obs['trace']) + ']'
     return f'(CRepeat {fw.cbool(case["base"] < 5)} {case["n"]}%nat {case["calls"]}%nat, ORepeat {tr})'
